@@ -171,7 +171,11 @@ StepCall(e, d) ==
       cands == IF nanI = {} THEN {anyNv}
                ELSE {nv \in Policies : Compatible(nv, pol) /\
                        \A i \in nanI : DeclOK(d, bep, e.ins[i], EnvOf(e, i), nv, e.outs[i]) \/ Lenient(e, i)}
-      badNan == IF cands = {} THEN nanI ELSE {i \in nanI : ~CanonOK(d, e, i)}
+      \* no policy explains the whole batch: blame the pairs that no compatible policy explains on their own
+      \* (all NaN-dependent pairs only if each of them is explainable separately, i.e. they contradict one another)
+      compat == {nv \in Policies : Compatible(nv, pol)}
+      indiv == {i \in nanI : \A nv \in compat : ~(DeclOK(d, bep, e.ins[i], EnvOf(e, i), nv, e.outs[i]) \/ Lenient(e, i))}
+      badNan == IF cands = {} THEN (IF indiv # {} THEN indiv ELSE nanI) ELSE {i \in nanI : ~CanonOK(d, e, i)}
       bad == badPlain \cup badNan
       drift == {i \in N \ bad : e.outs[i] # OpCall(d, bep, e.ins[i], EnvOf(e, i)) /\ ~(bep = "deser" /\ ~e.ins[i].ok) /\ ~Lenient(e, i)}
   IN
